@@ -61,6 +61,9 @@ Requests ==
 \cup {Req("Round", dg, 0, 0, 0, 0) : dg \in {1, 7, 8, UMAX}}
 \cup {Req("Factorial", n, 0, 0, 0, 0) : n \in {0, 170, 171, UMAX}}
 \cup {Req("BinomCoef", n, k, 0, 0, 0) : n \in 0..2, k \in 0..2}
+\* around the switch-over from the factorial table to lnGamma (n = 170 | 171) and far beyond: every 0 <= k <= n has a meaning;
+\* f = 0 the coefficient, 1 / 2 the binomial mass function / CDF with that number of trials
+\cup {Req("BinomBig", f, n, kc, 0, 0) : f \in 0..2, n \in {169, 170, 171, 172, 400}, kc \in 0..3}
 \cup {Req(ep, x, 0, 0, 0, 0) : ep \in {"GammaLn", "Gamma"}, x \in 0..3}
 \cup {Req("GammaPQ", f, x, a, 0, 0) : f \in 0..3, x \in 0..2, a \in 0..2}
 \cup {Req("InvGamma", f, a, 0, 0, 0) : f \in 0..1, a \in 0..2}
@@ -111,6 +114,7 @@ Meaningful(r) ==
     [] r.ep = "Rejection" -> r.a \in {0, 4}
     [] r.ep = "Round"    -> r.a <= 7
     [] r.ep = "Factorial" -> r.a <= 170
+    [] r.ep = "BinomBig" -> TRUE
     [] r.ep = "BinomCoef" -> r.a >= 1 /\ r.b >= 1                                  \* codes 0,1,2 stand for -1,0,1
     [] r.ep \in {"GammaLn", "Gamma"} -> r.a >= 2                                   \* codes: -1, 0, tiny, 1
     [] r.ep = "GammaPQ"  -> r.b >= 1 /\ r.c = 2                                    \* x >= 0 and a > 0
@@ -134,7 +138,7 @@ Either(r) ==
 
 EntryPoints == {r.ep : r \in Requests}
 \* non-vacuity of the table: every guarded entry point is enumerated on both sides of its guard
-BothSides == \A ep \in EntryPoints \ {"SubList"} :
+BothSides == \A ep \in EntryPoints \ {"SubList", "BinomBig"} :      \* (BinomBig: the accepted side of a switch-over inside the implementation)
                 /\ \E r \in Requests : r.ep = ep /\ Meaningful(r) /\ ~Either(r)
                 /\ \E r \in Requests : r.ep = ep /\ ~Meaningful(r) /\ ~Either(r)
 =============================================================================
